@@ -182,7 +182,11 @@ func (db *SpecDB) readFile(e *Engine, p *packages.Package, f *ast.File) {
 			db.parseLemma(e, p.PkgPath, strings.TrimPrefix(h, "lemma "), it.head.pos, it.clauses)
 		case strings.HasPrefix(h, "func "):
 			rel := strings.TrimSpace(strings.TrimPrefix(h, "func "))
-			fs := &FuncSpec{Key: p.PkgPath + "::" + rel, PkgPath: p.PkgPath, Rel: rel, LoopInv: map[int][]Clause{}, LoopDec: map[int]Clause{},
+			key := p.PkgPath + "::" + rel
+			if strings.Contains(rel, "::") {
+				key = rel // fully qualified: a contract for a function of another (library) package
+			}
+			fs := &FuncSpec{Key: key, PkgPath: p.PkgPath, Rel: rel, LoopInv: map[int][]Clause{}, LoopDec: map[int]Clause{},
 				Tags: map[string]bool{}, Safety: map[string]bool{}, Pos: it.head.pos}
 			for _, cl := range it.clauses {
 				db.parseClause(e, fs, cl)
